@@ -16,7 +16,7 @@ import (
 	"github.com/valyala/fasthttp"
 )
 
-func (r *router) startFastHttpServer(cfg *ServerConfig) (*fasthttp.Server, error) {
+func (r *router) startFastHttpServer(cfg *ServerConfig) (closer func(), _ error) {
 	const defaultIdleTimeout = time.Second * 30
 	idleTimeout := time.Duration(cfg.IdleTimeout) * time.Second
 	if idleTimeout <= 0 {
@@ -57,7 +57,13 @@ func (r *router) startFastHttpServer(cfg *ServerConfig) (*fasthttp.Server, error
 			r.fatal("fasthttp server exited", err)
 		}
 	}()
-	return s, nil
+	return func() {
+		// Shutdown only knows the listener once Serve has registered it. If
+		// the router is closed right after start-up (e.g. because the next
+		// server failed to start), close the listener directly as well.
+		l.Close()
+		s.Shutdown()
+	}, nil
 }
 
 type fasthttpHandler struct {
